@@ -16,6 +16,10 @@ FOREIGN = "x"   # a character that is no terminal of the generated grammars (and
 def render(rng, g, toks, ws):
     """returns (text, [byte offset of every token], byte offset of 'end of input' candidates)"""
     pool = [""] if ws == "none" else ["", " ", "  ", "\n", "\t", " \n ", "\r\n"]
+    if ws != "none" and g.layout in ("comments", "nested"):
+        pool += [" // note\n", "//x\n ", "//\n"]
+        if g.layout == "nested":
+            pool += ["/* c */", " /* a /* b */ c */ ", "/**/\n"]
     out = ""
     offs = []
     for t in toks:
@@ -74,12 +78,12 @@ def oracle(c):
     return bad
 
 
-def gen(rng, tier, algo, tt, n):
+def gen(rng, tier, algo, tt, n, layout=None):
     cases = []
     tries = 0
     while len(cases) < n and tries < n * 60:
         tries += 1
-        g = random_grammar(rng, p_empty=0.2)
+        g = random_grammar(rng, p_empty=0.2, layout=layout)
         if g.undefined_symbols() or not g.all_productive() or g.is_cyclic():
             continue
         if algo == "GLR" and not g.in_glr_scope():
@@ -145,6 +149,10 @@ def run(rep, tier, seed):
     n = 80 if tier == "quick" else 800
     lr = gen(rng, tier, "LR", "LALR_PAGER", n) + gen(rng, tier, "LR", "LALR", n // 2)
     glr = gen(rng, tier, "GLR", "LALR_RN", n // 2)
+    # user Layout rules: the error must point at the offending token BEHIND the layout that precedes it
+    for layout in ("ws", "comments", "nested"):
+        lr += gen(rng, tier, "LR", "LALR_PAGER", max(6, n // 8), layout=layout)
+        glr += gen(rng, tier, "GLR", "LALR_RN", max(4, n // 12), layout=layout)
     for c in glr:
         c.max_trees = 0      # parse-only: Forest::solutions() is exponential on highly ambiguous inputs and is not what C12 is about
     lf.add_histories(rng, lr)
@@ -192,6 +200,11 @@ def check(rep, lr, glr, proofs_ok):
             rep.count("certC12_not_evaluated(driver without `cert viable`)")
             continue
         ok = c.extra[2] == "1" and "=0" not in c.extra[3]
+        if c.gram is not None and c.gram.layout is not None:
+            # certC12 speaks about the main automaton of a grammar without a Layout rule (token level): Layout grammars
+            # are decided by correspondence + the viable-prefix oracle only
+            rep.count("layout_grammar(outside certC12):" + ("cert=1" if ok else "cert=0"))
+            continue
         rep.count("certC12_" + ("pass" if ok else "FAIL:c01=" + c.extra[2] + " " + c.extra[3]))
         if not ok:
             cert_fail.append(c)
